@@ -386,3 +386,42 @@ func Verif_C18_owner_hears_its_own_old_messages() {
 	verifapi.Assert("old-message-about-an-own-service-not-relayed", nRelayed == 0)
 	verifapi.Assert("no-lock-left-held", verifapi.HeldLocks() == 0)
 }
+
+// Verif_C18_withdrawal_survives_a_stalled_link: the link to neighbour B is up but its writer is stalled
+// (nothing takes messages off the connection for a while - back-pressure), the owner closes its
+// advertised listener meanwhile, timers fire, and then the link drains again. The withdrawal - which is
+// sent exactly once - is among what B finally receives.
+func Verif_C18_withdrawal_survives_a_stalled_link() {
+	n := verifNetceptor("A")
+	s := n.s
+	cb := n.verifConn("B", 1)
+	cb.WriteChan = make(chan []byte) // unbuffered and unread: the writer is stalled
+	pc, err := s.ListenPacketAndAdvertise("svc", map[string]string{"k": "v"})
+	verifapi.Assert("listen-ok", err == nil)
+	verifapi.Quiesce()
+	_ = pc.Close()
+	verifapi.Quiesce()
+	for i := 0; i < 4; i++ {
+		verifapi.AdvanceTime(10 * time.Second)
+		verifapi.Quiesce()
+	}
+	// the link drains
+	sawWithdrawal := false
+	for i := 0; i < 6; i++ {
+		select {
+		case m := <-cb.WriteChan:
+			if len(m) > 0 && m[0] == MsgTypeServiceAdvertisement {
+				sa := &serviceAdvertisementFull{}
+				if verifapi.FromJSON(m[1:], sa) && sa.Cancel && sa.ServiceAdvertisement != nil && sa.Service == "svc" {
+					sawWithdrawal = true
+				}
+			}
+		default:
+		}
+		verifapi.Quiesce()
+	}
+	verifapi.Cover("link-drained")
+	verifapi.Assert("withdrawal-delivered-once-the-link-drains", sawWithdrawal)
+	s.cancelFunc()
+	verifapi.Quiesce()
+}
